@@ -92,7 +92,7 @@ class IO:
         else:
             raise ValueError(fmt)
 
-    def _read(self, sim, fmt, d: Path, with_pos=True):
+    def _read(self, sim, fmt, d: Path, with_pos=True, feat=None):
         """The library call under test (read side): rebuild a SolutionTracks from files."""
         import pandas as pd
 
@@ -146,10 +146,22 @@ class IO:
                     if key == "score" and not any(dd.get("score") is not None for _, dd in tr.graph.nodes(data=True)):
                         continue
                     nm[key] = key
+            kw = {}
+            self.requested = set()
+            if feat and tr.segmentation is not None:
+                # the client asks the importer to keep the optional measurements it has
+                # switched on: taken from the file ("load") or computed again ("recompute")
+                nf = {k: feat == "recompute" for k in ("circularity", "perimeter") if k in sim.model_active and k in tr.features}
+                ef = {"iou": feat == "recompute"} if "iou" in sim.model_active and "iou" in tr.features and tr.graph.number_of_edges() else {}
+                if nf:
+                    kw["node_features"] = nf
+                if ef:
+                    kw["edge_features"] = ef
+                self.requested = set(nf) | set(ef)
             return import_from_geff(
                 store / "tracks", node_name_map=nm,
                 segmentation_path=(store / "segmentation") if tr.segmentation is not None else None,
-                scale=None if tr.scale is None else list(tr.scale),
+                scale=None if tr.scale is None else list(tr.scale), **kw,
             )
         raise ValueError(fmt)
 
@@ -465,6 +477,8 @@ class IO:
         """Crash-restart: acknowledged save, drop the object, rebuild from the files only."""
         if sim.restarts >= 2:
             return None
+        if op.get("fmt") in ("from_tracks", "featuredict"):
+            return self._rebuild_in_memory(sim, op)
         if op.get("late") and sim.saves.get("internal"):
             return self._late_restart(sim, op)
         if not self.exportable(sim, op.get("fmt")):
@@ -476,10 +490,11 @@ class IO:
         out = {"resolved": {"fmt": fmt}, "tags": [fmt] + (["pos_disabled"] if pos_off else [])}
         try:
             self._write(sim, fmt, d)
+            self.requested = set()
             if fmt.startswith("geff") and self._d7_predicate(tr):
-                new = self._read(sim, fmt, d, with_pos=False)
+                new = self._read(sim, fmt, d, with_pos=False, feat=op.get("feat"))
             else:
-                new = self._read(sim, fmt, d, with_pos=True)
+                new = self._read(sim, fmt, d, with_pos=True, feat=op.get("feat"))
         except StepTimeout:
             raise
         except Exception as e:  # noqa: BLE001
@@ -495,9 +510,42 @@ class IO:
                 return out
             sim.stat("C14.eval")
         sim.adopt(new)
+        if self.requested:
+            # what the client asked the importer to switch on is on, by the client's account
+            sim.model_active |= self.requested
+            sim.count("io_restart_with_requested_features")
         sim.count("io_restart_" + ("geff" if fmt.startswith("geff") else fmt))
         if fmt == "internal":
             self._remember(sim, fmt, d, new)
+        out["cls"] = "accepted"
+        return out
+
+    def _rebuild_in_memory(self, sim, op):
+        """The client converts its object into a new one without going through files -
+        SolutionTracks.from_tracks(tracks), or the constructor with the old object's graph,
+        array and feature registry - drops the old one and continues on the new one: same
+        state, rebuilt lookups, an empty history."""
+        from funtracks.data_model import SolutionTracks
+
+        tr = sim.tracks
+        if tr.features.tracklet_key not in tr.annotators.features:
+            return None
+        fmt = op["fmt"]
+        out = {"resolved": {"fmt": fmt}, "tags": [fmt]}
+        before = observe.canon(tr)
+        try:
+            if fmt == "from_tracks":
+                new = SolutionTracks.from_tracks(tr)
+            else:
+                new = SolutionTracks(tr.graph, segmentation=tr.segmentation, scale=None if tr.scale is None else list(tr.scale), ndim=tr.ndim, features=tr.features)
+        except StepTimeout:
+            raise
+        except Exception as e:  # noqa: BLE001
+            sim.guard("restart_failed", f"{fmt} {type(e).__name__} {str(e)[:120]}")
+        if observe.canon(new) != before:
+            sim.guard("restart_failed", f"{fmt}: rebuilt object differs")
+        sim.adopt(new)
+        sim.count("io_rebuild_" + fmt)
         out["cls"] = "accepted"
         return out
 
